@@ -1,6 +1,7 @@
 import Model.Record
 import Model.Compose
 import Model.WriteLoop
+import Model.Forest
 /-! Line protocol: stateless operations on the pure model functions. -/
 namespace Driver
 open Model
@@ -47,6 +48,43 @@ def parsePolicy (s : String) : Option (List WPol) :=
 def woutStr : WOut → String
   | .ok => "ok" | .timeout => "timeout" | .hard => "hard" | .closed => "closed" | .gate => "gate"
 
+/-- parser of the error-tree notation of the `isany` operation: L<id> | N<id> | W(<tree>) | J(<tree>,…) -/
+def takeNum : List Char → Nat → Nat × List Char
+  | c :: r, acc => if c.isDigit then takeNum r (acc * 10 + (c.toNat - '0'.toNat)) else (acc, c :: r)
+  | [], acc => (acc, [])
+
+mutual
+  def parseE : Nat → List Char → Option (E × List Char)
+    | 0, _ => none
+    | fuel + 1, 'L' :: r => let (n, r') := takeNum r 0; some (.leaf n, r')
+    | fuel + 1, 'N' :: r => let (n, r') := takeNum r 0; some (.wrapNil n, r')
+    | fuel + 1, 'W' :: '(' :: r =>
+      match parseE fuel r with
+      | some (c, ')' :: r') => some (.wrap 1000 c, r')
+      | _ => none
+    | fuel + 1, 'J' :: '(' :: r =>
+      match parseEs fuel r with
+      | some (cs, r') => some (.join 1000 cs, r')
+      | none => none
+    | _, _ => none
+  def parseEs : Nat → List Char → Option (EList × List Char)
+    | 0, _ => none
+    | _ + 1, ')' :: r => some (.nil, r)
+    | fuel + 1, r =>
+      match parseE fuel r with
+      | some (e, ',' :: r') => (parseEs fuel r').map fun (es, r'') => (.cons e es, r'')
+      | some (e, r') => (parseEs fuel r').map fun (es, r'') => (.cons e es, r'')
+      | none => none
+end
+
+def isanyLine (tree targets : String) : String :=
+  match parseE (tree.length + 1) tree.toList with
+  | some (e, []) =>
+    if targets == "deny" then s!"isany {isDeny e}" else if targets == "end" then s!"isany {isEnd e}" else
+    let ids : List Nat := (targets.splitOn ",").filterMap String.toNat?
+    s!"isany {isAny (fun i => ids.contains i) e}"
+  | _ => "bad-op isany"
+
 def pureStep (f : List String) : String :=
   match f with
   | "enc" :: p :: seq :: _ =>
@@ -69,6 +107,7 @@ def pureStep (f : List String) : String :=
       | .ok (p, _) => s!"rload ok {hexOrDash p}"
       | .error _ => "rload err"
     | none => "bad-op rload"
+  | ["isany", tree, targets] => isanyLine tree targets
   | ["strcheck", s] =>
     match ofHex s with
     | some b => "strcheck " ++ denyStr (stringCheck b)
